@@ -368,7 +368,18 @@ def run_scale_job(job, prop, seed, tag):
             problems.append("child did not complete (%s: %s)" % (kind, detail))
         else:
             pairs, lb = data["pairs"], data["loopbacks"]
-            if data["traces"] != 1:
+            if sh == "churn":
+                # a two-object cycle whose hub adopted and unadopted n peers: probes (100 traces
+                # through the hub) before and after the churn, then the collection of the cycle
+                if data["small_before_bytes"] != 100 or data["small_after_bytes"] != 100:
+                    r.inconclusive.append({"why": "churn probes ran %d / %d traces instead of 100 each" % (data["small_before_bytes"], data["small_after_bytes"])})
+                elif data["small_after_cpu_us"] > 20 * data["small_before_cpu_us"] + 50000:
+                    problems.append("100 traces through a hub with 1 live adoption took %d us before and %d us after it had adopted and unadopted %d peers (cost follows adoptions ever made, not adoptions that exist)" % (data["small_before_cpu_us"], data["small_after_cpu_us"], n))
+                if data["collect_cpu_us"] > 50000 + n // 20:
+                    problems.append("collecting a two-object cycle took %d us after its hub had adopted and unadopted %d peers" % (data["collect_cpu_us"], n))
+                if data["group_members"] != 2 or data["drops"] != 2 or data["traces"] != 1:
+                    problems.append("two-object cycle: %d traces, %d members torn down, %d destructors ran" % (data["traces"], data["group_members"], data["drops"]))
+            elif data["traces"] != 1:
                 problems.append("%d traces for one drop" % data["traces"])
             # generous linear bounds ("a bounded number of visits per object"): the current algorithm
             # needs N expansions, pairs+1 pops and 2*pairs+same-handle entries; an alternative linear
@@ -387,7 +398,7 @@ def run_scale_job(job, prop, seed, tag):
                     problems.append("400 two-object cycles requested %d bytes from the allocator before a %d-object collection and %d bytes after it" % (data["small_before_bytes"], n, data["small_after_bytes"]))
                 elif data["small_after_cpu_us"] > 20 * data["small_before_cpu_us"] + 50000:
                     problems.append("400 two-object cycles took %d us before a %d-object collection and %d us after it" % (data["small_before_cpu_us"], n, data["small_after_cpu_us"]))
-            if data["group_members"] != n or data["drops"] != n:
+            if sh != "churn" and (data["group_members"] != n or data["drops"] != n):
                 problems.append("group of %d: %d members torn down, %d destructors ran" % (n, data["group_members"], data["drops"]))
             if data["max_depth"] > 1:
                 problems.append("destructor nesting depth %d while destroying group members (must stay 1)" % data["max_depth"])
